@@ -13,6 +13,12 @@ xh : the three request validators ``_deserialize_params`` / ``_validate_call_sig
      name, Arrow type and nullability, every non-optional parameter is non-null and every enum
      value names a member; otherwise an ``Exception`` is raised before the "invoke" marker is set.
 
+     How a refusal is ANSWERED is decided with each site's own ``except`` clauses, cut out of the live
+     source: on the socket site the raised exception must be one its handler catches (error stream);
+     on the HTTP sites the validation statements run inside the site's own try/except and the refusal
+     must leave as ``_RpcHttpError`` with status 400 (``rejected-but-not-http-400`` otherwise).  The
+     replay posts the same request to the real HTTP stack (unary and stream init).
+
      The two directions carry different signatures: ``nonconforming-request-invoked`` is the
      property statement proper ("invoked only when ..."); ``conforming-request-rejected`` is its
      converse, kept because "any OTHER request is rejected" makes the conforming ones the served
@@ -50,8 +56,8 @@ BOUNDS = (
 OUTSIDE = (
     "Arrow type equality itself (field.type != declared.type is C++; types are opaque tokens, so 'compatible widening' == 'different token'); "
     "dataclass / dict / frozenset parameters of _deserialize_value; duplicate column names beyond what the name alphabet produces; "
-    "the HTTP 400 vs error-stream mapping of the raised exception and 'the method's own TypeError is not a request error' at the dispatch sites "
-    "(only the order of the validator calls is read from the sites; the sites themselves run in the replay only); _read_request's metadata checks (C05); the real shm / external-location resolvers (contract stubs in (D), real shm in its replay); "
+    "'the method's own TypeError is not a request error' at the dispatch sites (C07 decides the HTTP sites for implementation-raised TypeErrors); "
+    "the statements of the dispatch sites before the first validator call (request reading, method-name and version gates: C05) and after the validation try (the sites run whole in the replays only); _read_request's metadata checks (C05); the real shm / external-location resolvers (contract stubs in (D), real shm in its replay); "
     "whether / how often the shm side channel is released or detached (resource hygiene, not C06)."
 )
 ASSUMPTIONS = [
@@ -86,6 +92,146 @@ _SITES = {
     "_run_stream_init_sync": _site_sequence(aps._run_stream_init_sync),
 }
 _SEQUENCES = tuple(sorted(set(_SITES.values())))
+
+
+# ---------------------------------------------------------------------------
+# how each dispatch site ANSWERS a request its validators refuse — taken from the live source
+# ---------------------------------------------------------------------------
+# "rejected before the method runs (HTTP 400 or an error stream on sockets)": which exception a
+# validator raises matters only through the ``except`` clauses of the site that called it.  The
+# ``try`` statement of each site that encloses the validator calls is cut out of the live AST (its
+# statements from the first validator call on, with its own handlers, unchanged) and compiled in
+# the site's own module namespace: socket site -> the classes its handler catches and answers with
+# an error stream; HTTP sites -> the real ``raise _RpcHttpError(..., status_code=...)`` clauses run.
+
+
+def _calls_validator(node: ast.AST, only: str | None = None) -> bool:
+    for sub in ast.walk(node):
+        if isinstance(sub, ast.Call) and isinstance(sub.func, ast.Name) and sub.func.id in _VALIDATORS and (only is None or sub.func.id == only):
+            return True
+    return False
+
+
+def _validation_try(fn) -> ast.Try:  # type: ignore[no-untyped-def]
+    """The innermost ``try`` with handlers around the ``_validate_call_signature`` call of a dispatch site."""
+    tree = ast.parse(textwrap.dedent(inspect.getsource(fn)))
+    best = None
+    for node in ast.walk(tree):
+        if isinstance(node, ast.Try) and node.handlers and any(_calls_validator(s, "_validate_call_signature") for s in node.body):
+            if best is None or any(node is sub for sub in ast.walk(best)):
+                best = node
+    if best is None:
+        raise RuntimeError("%s: no try/except around the request validators; harness out of date" % fn.__qualname__)
+    return best
+
+
+def _caught_classes(fn, module) -> tuple:  # type: ignore[no-untyped-def]
+    """Classes the site's validation ``try`` catches (socket site: each is answered with an error stream)."""
+    out: list = []
+    for h in _validation_try(fn).handlers:
+        if h.type is None:
+            out.append(BaseException)
+            continue
+        got = eval(compile(ast.Expression(h.type), "<handler of %s>" % fn.__qualname__, "eval"), dict(vars(module)))  # noqa: S307
+        out.extend(got if isinstance(got, tuple) else (got,))
+    return tuple(out)
+
+
+def _http_validation_block(fn, module):  # type: ignore[no-untyped-def]
+    """``block(kwargs, info, app, method_name)``: the site's own validation statements + except clauses."""
+    t = _validation_try(fn)
+    first = next(i for i, s in enumerate(t.body) if _calls_validator(s))
+    body = ast.Try(body=t.body[first:], handlers=t.handlers, orelse=[], finalbody=[])
+    fdef = ast.FunctionDef(
+        name="_validation_block",
+        args=ast.arguments(posonlyargs=[], args=[ast.arg(a) for a in ("kwargs", "info", "app", "method_name")], kwonlyargs=[], kw_defaults=[], defaults=[]),
+        body=[body], decorator_list=[], type_params=[],
+    )
+    mod = ast.fix_missing_locations(ast.Module(body=[fdef], type_ignores=[]))
+    ns = dict(vars(module))
+    exec(compile(mod, "<validation block of %s>" % fn.__qualname__, "exec"), ns)  # noqa: S102
+    return ns["_validation_block"], ast.dump(body)
+
+
+class _HttpServerStub:
+    """``app._server`` as far as the validation statements read it."""
+
+    ipc_validation = IpcValidation.FULL
+
+    def __getattr__(self, attr: str):  # pragma: no cover
+        raise HarnessModelError("HTTP server stub touched through " + attr)
+
+
+class _HttpAppStub:
+    _server = _HttpServerStub()
+
+    def __getattr__(self, attr: str):  # pragma: no cover
+        raise HarnessModelError("HTTP app stub touched through " + attr)
+
+
+class _InfoStub:
+    """RpcMethodInfo as far as the validation statements read it."""
+
+    def __init__(self, param_types: dict, param_defaults: dict, params_schema) -> None:  # type: ignore[no-untyped-def]
+        self.name = "m"
+        self.param_types = param_types
+        self.param_defaults = param_defaults
+        self.params_schema = params_schema
+
+    def __getattr__(self, attr: str):  # pragma: no cover
+        raise HarnessModelError("method info stub touched through " + attr)
+
+
+class _SocketRunner:
+    """The validators in the order of a socket site; a refusal is answered iff the site's handler catches it."""
+
+    kind = "socket"
+
+    def __init__(self, seq: tuple, caught: tuple) -> None:
+        self.seq = seq
+        self.caught = caught
+
+    def run(self, kwargs: dict, param_types: dict, param_defaults: dict, params_schema) -> None:  # type: ignore[no-untyped-def]
+        for step in self.seq:
+            if step == "_deserialize_params":
+                wire._deserialize_params(kwargs, param_types, IpcValidation.FULL)
+            elif step == "_validate_call_signature":
+                wire._validate_call_signature("m", kwargs, param_types, param_defaults, params_schema)
+            else:
+                wire._validate_params("m", kwargs, param_types)
+
+    def answered_as_request_error(self, exc) -> bool:  # type: ignore[no-untyped-def]
+        return isinstance(exc, self.caught) and isinstance(exc, Exception)
+
+
+class _HttpRunner:
+    """The validation statements of an HTTP site with the site's own except clauses: a refusal must leave as status 400."""
+
+    kind = "http"
+
+    def __init__(self, block) -> None:  # type: ignore[no-untyped-def]
+        self.block = block
+
+    def run(self, kwargs: dict, param_types: dict, param_defaults: dict, params_schema) -> None:  # type: ignore[no-untyped-def]
+        self.block(kwargs, _InfoStub(param_types, param_defaults, params_schema), _HttpAppStub(), "m")
+
+    def answered_as_request_error(self, exc) -> bool:  # type: ignore[no-untyped-def]
+        status = getattr(exc, "status_code", None)
+        return status is not None and int(status) == 400
+
+
+def _make_runners() -> tuple:
+    runners: list = [_SocketRunner(_SITES["RpcServer.serve_one"], _caught_classes(srv.RpcServer.serve_one, srv))]
+    seen: set = set()
+    for fn, module in ((apu._run_unary_sync, apu), (aps._run_stream_init_sync, aps)):
+        block, key = _http_validation_block(fn, module)
+        if key not in seen:  # the two HTTP sites share one text: decide it once
+            seen.add(key)
+            runners.append(_HttpRunner(block))
+    return tuple(runners)
+
+
+_RUNNERS = _make_runners()
 
 
 # ---------------------------------------------------------------------------
@@ -157,7 +303,7 @@ def _concrete(i: int, n: int) -> int:
     raise HarnessModelError("index out of range")
 
 
-def _run_site(seq: tuple, n: int, dopt, ddef, den, dtok, m: int, rname, rtok, rnull, rval, dnull=None, names=_REQ_NAMES):  # type: ignore[no-untyped-def]
+def _run_site(runner, n: int, dopt, ddef, den, dtok, m: int, rname, rtok, rnull, rval, dnull=None, names=_REQ_NAMES):  # type: ignore[no-untyped-def]
     """Returns (accepted, exception | None, expected_accept).
 
     ``dnull`` None: the declared field's nullability is derived from the annotation exactly as
@@ -188,13 +334,7 @@ def _run_site(seq: tuple, n: int, dopt, ddef, den, dtok, m: int, rname, rtok, rn
     exc = None
     try:
         try:
-            for step in seq:
-                if step == "_deserialize_params":
-                    wire._deserialize_params(kwargs, param_types, IpcValidation.FULL)
-                elif step == "_validate_call_signature":
-                    wire._validate_call_signature("m", kwargs, param_types, param_defaults, params_schema)
-                else:
-                    wire._validate_params("m", kwargs, param_types)
+            runner.run(kwargs, param_types, param_defaults, params_schema)
             invoked = True  # the implementation would be called here
         except Exception as e:  # noqa: BLE001
             exc = e
@@ -226,30 +366,39 @@ _LAST: dict = {"dir": ""}
 _DIR_INVOKED = "nonconforming-request-invoked"  # the property statement proper: "invoked only when ..."
 _DIR_REJECTED = "conforming-request-rejected"  # the converse ("any OTHER request is rejected"): a conforming one is served
 _DIR_UNANSWERED = "rejected-without-error-answer"
+_DIR_NOT_400 = "rejected-but-not-http-400"
 
 
 def _sig(prefix: str, fallback: str = "decision-differs"):  # type: ignore[no-untyped-def]
     return lambda a, c: "C06:%s:%s" % (prefix, _LAST["dir"] or fallback)
 
 
-def _decide(seq: tuple, n, dopt, ddef, den, dtok, m, rname, rtok, rnull, rval, dnull=None, names=_REQ_NAMES) -> bool:  # type: ignore[no-untyped-def]
-    invoked, exc, want = _run_site(seq, n, dopt, ddef, den, dtok, m, rname, rtok, rnull, rval, dnull, names)
+def _decide(runner, n, dopt, ddef, den, dtok, m, rname, rtok, rnull, rval, dnull=None, names=_REQ_NAMES) -> bool:  # type: ignore[no-untyped-def]
+    invoked, exc, want = _run_site(runner, n, dopt, ddef, den, dtok, m, rname, rtok, rnull, rval, dnull, names)
     if invoked != want:
         _LAST["dir"] = _DIR_INVOKED if invoked else _DIR_REJECTED
         return False
     if not invoked:
-        # rejected before the method runs, with an ordinary exception the dispatch sites answer as a request error
-        return isinstance(exc, (TypeError, KeyError, ValueError))
+        # rejected before the method runs AND answered as a request error by that site's own except clauses:
+        # an error stream on sockets, status 400 over HTTP
+        if not runner.answered_as_request_error(exc):
+            _LAST["dir"] = _DIR_NOT_400 if runner.kind == "http" else _DIR_UNANSWERED
+            return False
+        return True
     return exc is None
 
 
 _F3 = (False, False, False)
-_STUBS = ["pa.Schema / pa.Field := duck-typed field list (name, type, nullable); Arrow types := opaque tokens compared with =="]
+_STUBS = [
+    "pa.Schema / pa.Field := duck-typed field list (name, type, nullable); Arrow types := opaque tokens compared with ==",
+    "HTTP sites: app / RpcMethodInfo := objects with the attributes the validation statements read (ipc_validation; name, param_types, param_defaults, params_schema)",
+]
+_ENCODED_SITES = ENCODED + [apu._run_unary_sync, aps._run_stream_init_sync, srv.RpcServer.serve_one]
 
 
 def _all_sites(*a, **k) -> bool:  # type: ignore[no-untyped-def]
-    for seq in _SEQUENCES:
-        if not _decide(seq, *a, **k):
+    for runner in _RUNNERS:
+        if not _decide(runner, *a, **k):
             return False
     return True
 
@@ -259,7 +408,7 @@ _MA = pick(3, 4)
 _NAMES_A = pick(("a", "b", "c", "ctx"), _REQ_NAMES)  # quick: an undeclared name is 'c'/'b' (when n < 3) or 'ctx'
 
 
-@cond(q=100, t=600, encoded=ENCODED, stubs=_STUBS, replay=lambda a: _replay_a(a), signature=_sig("shape"),
+@cond(q=240, t=900, encoded=_ENCODED_SITES, stubs=_STUBS, replay=lambda a: _replay_a(a), signature=_sig("shape"),
       bound="declared: 0..3 int parameters a,b,c with symbolic type token (3), nullable flag, all-or-none defaulted; request: 0..%d columns, name in %r, type token (3), nullable flag; all values non-null" % (_MA, _NAMES_A))
 def shape_accepted_iff_columns_match(n: int, alldef: bool, dnull: tuple[bool, bool, bool], dtok: tuple[int, int, int],
                                      m: int, rname: tuple[int, int, int, int], rtok: tuple[int, int, int, int], rnull: tuple[bool, bool, bool, bool]) -> bool:
@@ -275,7 +424,7 @@ def shape_accepted_iff_columns_match(n: int, alldef: bool, dnull: tuple[bool, bo
 _NB = pick(2, 3)
 
 
-@cond(q=100, t=300, encoded=ENCODED, stubs=_STUBS, replay=lambda a: _replay_b(a), signature=_sig("values"),
+@cond(q=200, t=500, encoded=_ENCODED_SITES, stubs=_STUBS, replay=lambda a: _replay_b(a), signature=_sig("values"),
       bound="0..%d parameters, each optional-or-not x enum-or-int typed x defaulted-or-not x value None / valid / unknown enum member; request columns equal to the declared ones" % _NB)
 def values_accepted_iff_non_null_and_members(n: int, dopt: tuple[bool, bool, bool], ddef: tuple[bool, bool, bool], den: tuple[bool, bool, bool], rval: tuple[int, int, int]) -> bool:
     """
@@ -290,7 +439,7 @@ _NC = pick(1, 2)
 _NAMES_C = pick(("a", "ctx", "z"), _REQ_NAMES)
 
 
-@cond(q=100, t=600, encoded=ENCODED, stubs=_STUBS, replay=lambda a: _replay_c(a), signature=_sig("pipeline"),
+@cond(q=240, t=900, encoded=_ENCODED_SITES, stubs=_STUBS, replay=lambda a: _replay_c(a), signature=_sig("pipeline"),
       bound="full pipeline, everything symbolic: 0..%d parameters (optional, defaulted, enum/int, 3 type tokens) x 0..2 request columns (name in %r, 3 type tokens, nullable flag, value None/valid/unknown member)" % (_NC, _NAMES_C))
 def request_accepted_iff_conforming(n: int, dopt: tuple[bool, bool, bool], ddef: tuple[bool, bool, bool], den: tuple[bool, bool, bool], dtok: tuple[int, int, int],
                                     m: int, rname: tuple[int, int], rtok: tuple[int, int], rnull: tuple[bool, bool], rval: tuple[int, int]) -> bool:
@@ -331,12 +480,18 @@ def _real_replay(n, dopt, ddef, den, dtok, m, rname, rtok, rnull, rval, dnull=No
         default = (" = None" if dopt[i] else (" = Color.RED" if den[i] else " = 0")) if ddef[i] else ""
         params.append("%s: %s%s" % (_DECL_NAMES[i], ann, default))
     # parameters with defaults must follow those without: keep order, make them keyword-only-free by reordering defaults check
-    src = "class P(Protocol):\n    def m(self, %s) -> int: ...\n" % ", ".join(["*"] + params if params else [])
+    plist = ", ".join(["*"] + params if params else [])
+    # the same signature as a unary method and as a stream initialiser (the two HTTP dispatch sites)
+    src = "class P(Protocol):\n    def m(self, %s) -> int: ...\n    def s(self, %s) -> Stream[ProducerState]: ...\n" % (plist, plist)
     src = src.replace("(self, )", "(self)")
-    ns: dict = {"Color": Color}
+    ns: dict = {"Color": Color, "Stream": Stream, "ProducerState": ProducerState, "_ReplayProducer": _ReplayProducer, "_RS": _REPLAY_STREAM_SCHEMA}
     exec("from typing import Protocol\n" + src, ns)  # noqa: S102
 
-    isrc = "class Impl:\n    def m(self, %s) -> int:\n        CALLS.append(1)\n        return 1\n" % ", ".join((["*"] + params if params else []) + ["**extra"])
+    ilist = ", ".join((["*"] + params if params else []) + ["**extra"])
+    isrc = (
+        "class Impl:\n    def m(self, %s) -> int:\n        CALLS.append(1)\n        return 1\n"
+        "    def s(self, %s) -> Stream[_ReplayProducer]:\n        CALLS.append(1)\n        return Stream(output_schema=_RS, state=_ReplayProducer())\n"
+    ) % (ilist, ilist)
     ns["CALLS"] = calls
     exec(isrc, ns)  # noqa: S102
     try:
@@ -423,6 +578,34 @@ def _real_replay(n, dopt, ddef, den, dtok, m, rname, rtok, rnull, rval, dnull=No
     if not got_error:  # non-conforming, method not run: "rejected ... (an error stream on sockets)"
         _LAST["dir"] = _DIR_UNANSWERED
         return shown + ": rejected request was not answered with an error stream (%r)" % (unanswered,)
+    return _http_replay(ns["P"], ns["Impl"](), calls, batch, shown)
+
+
+def _http_replay(proto, impl, calls: list, batch, shown: str) -> str | None:  # type: ignore[no-untyped-def]
+    """The same NON-conforming request through the real HTTP stack (falcon WSGI app, in-process client), as a
+    unary call and as a stream initialisation: the method must not run and the answer must be status 400."""
+    from vgi_rpc import metadata as md
+    from vgi_rpc.http import _ARROW_CONTENT_TYPE, make_sync_client
+
+    client = make_sync_client(srv.RpcServer(proto, impl, server_id="srv"), token_key=b"k" * 32)
+    try:
+        for method, url in (("m", "http://test/m"), ("s", "http://test/s/init")):
+            del calls[:]
+            req = BytesIO()
+            with ipc.new_stream(req, batch.schema) as w:
+                w.write_batch(batch, custom_metadata=pa.KeyValueMetadata({md.RPC_METHOD_KEY: method.encode(), md.REQUEST_VERSION_KEY: md.REQUEST_VERSION}))
+            r = client.post(url, content=req.getvalue(), headers={"Content-Type": _ARROW_CONTENT_TYPE})
+            if calls:
+                _LAST["dir"] = _DIR_INVOKED
+                return shown + ": over HTTP (POST %s) the method was invoked but the request violates the contract" % url
+            if r.status_code != 400:
+                _LAST["dir"] = _DIR_NOT_400
+                marker = {k.lower(): v for k, v in dict(r.headers).items()}.get("x-vgi-rpc-error")
+                return shown + ": over HTTP (POST %s) the rejected request was answered with status %s (X-VGI-RPC-Error=%r), not 400" % (url, r.status_code, marker)
+    finally:
+        close = getattr(client, "close", None)
+        if close is not None:
+            close()
     return None
 
 
@@ -468,6 +651,21 @@ class _RouteProtoDefaults(Protocol):
 
 class _RouteProtoNoParams(Protocol):
     def m(self) -> int: ...
+
+
+from dataclasses import dataclass  # noqa: E402
+
+from vgi_rpc.rpc import ProducerState, Stream  # noqa: E402
+
+_REPLAY_STREAM_SCHEMA = pa.schema([pa.field("v", pa.int64())])
+
+
+@dataclass
+class _ReplayProducer(ProducerState):
+    """State of the stream method of the HTTP replay (never reached by a rejected request)."""
+
+    def produce(self, out, ctx) -> None:  # type: ignore[no-untyped-def]
+        out.finish()
 
 
 # signature kinds: required parameters / every parameter defaulted / no parameters at all
